@@ -911,6 +911,22 @@ func (g *fnGen) returnStmt(s *ast.ReturnStmt, k kctx) []string {
 		g.runDeferred(&p)
 		return emitPre(p, k.ret(g.resultValue(tmps)))
 	}
+	if g.fi.mutates && g.fi.mutParam == nil && g.deferred == nil && len(stage11.transparent) > 0 && len(s.Results) == 1 {
+		// return x.f.M(..) with M modifying its receiver (a field path of this method's receiver):
+		// the call first, then the receiver's new value and the results
+		if call, ok := ast.Unparen(s.Results[0]).(*ast.CallExpr); ok {
+			if c := g.t.calleeOf(g.fi.pk, call); c != nil && !c.errCtor && c.mutates {
+				var tmps []string
+				for i := 0; i < sig.Results().Len(); i++ {
+					tmps = append(tmps, g.fresh())
+				}
+				if !g.callStmt(call, &p, tmps...) {
+					g.failf(s, "return of this call")
+				}
+				return emitPre(p, k.ret(g.resultValue(tmps)))
+			}
+		}
+	}
 	if g.fi.mutParam != nil && len(s.Results) == 1 && sig.Results().Len() == 1 {
 		// return h.M(..) / return f(h, ..) with a call that rebinds the modified
 		// interface parameter: the call first, then the parameter's new value and the result
@@ -1410,7 +1426,7 @@ func (g *fnGen) assignTo(lhs ast.Expr, v string) []string {
 			return g.assignTo(x.X, "mapset "+paren(kk)+" "+paren(v)+" "+paren(m))
 		}
 		s := g.expr(x.X, &p)
-		if !isSliceType(g.typeOf(x.X)) {
+		if !isSliceType(g.typeOf(x.X)) && !g.t.arrayFieldSel(g.fi.pk, x.X) {
 			g.failf(lhs, "assignment to an element of %s", g.typeOf(x.X))
 		}
 		i := g.expr(x.Index, &p)
@@ -1419,6 +1435,9 @@ func (g *fnGen) assignTo(lhs ast.Expr, v string) []string {
 		sel, ok := g.info.Selections[x]
 		if !ok || sel.Kind() != types.FieldVal {
 			g.failf(lhs, "assignment to this selector")
+		}
+		if g.t.transparentSel(g.fi.pk, x) {
+			return g.assignTo(x.X, v)
 		}
 		if g.t.isViaSel(g.fi.pk, x) {
 			// x.f with f a --via field: the instance it stands for
@@ -1474,7 +1493,7 @@ func (g *fnGen) assignTo(lhs ast.Expr, v string) []string {
 func (g *fnGen) lvalue(lhs ast.Expr, p *[]binding) func(v string) []string {
 	switch x := ast.Unparen(lhs).(type) {
 	case *ast.IndexExpr:
-		if !isSliceType(g.typeOf(x.X)) {
+		if !isSliceType(g.typeOf(x.X)) && !g.t.arrayFieldSel(g.fi.pk, x.X) {
 			g.failf(lhs, "assignment to an element of %s", g.typeOf(x.X))
 		}
 		s := g.expr(x.X, p)
@@ -1840,6 +1859,9 @@ func (g *fnGen) expr(e ast.Expr, p *[]binding) string {
 			if sel.Kind() != types.FieldVal {
 				g.failf(e, "method value")
 			}
+			if g.t.transparentSel(g.fi.pk, x) {
+				return g.expr(x.X, p)
+			}
 			if g.t.isViaSel(g.fi.pk, x) {
 				return g.viaVar(e, x)
 			}
@@ -1909,6 +1931,13 @@ func (g *fnGen) expr(e ast.Expr, p *[]binding) string {
 		case token.ADD:
 			return g.expr(x.X, p)
 		case token.AND:
+			// &x with x a variable of a named slice type: a pointer to a named slice IS the slice variable
+			// (sound as long as the variable is not used after the pointer escapes: here it is returned)
+			if id, ok := ast.Unparen(x.X).(*ast.Ident); ok && ptrSliceOf(g.typeOf(e)) {
+				if _, isVar := g.info.Uses[id].(*types.Var); isVar {
+					return g.expr(id, p)
+				}
+			}
 			if cl, ok := ast.Unparen(x.X).(*ast.CompositeLit); ok {
 				if on := g.t.objectOf(g.typeOf(e)); on != nil {
 					return g.objComposite(cl, on, p)
@@ -1929,7 +1958,7 @@ func (g *fnGen) expr(e ast.Expr, p *[]binding) string {
 			kk := g.expr(x.Index, p)
 			return "(fst (mapget " + paren(kk) + " " + paren(m) + "))"
 		}
-		if !isSliceType(tx) && !isStringType(tx) {
+		if !isSliceType(tx) && !isStringType(tx) && !g.t.arrayFieldSel(g.fi.pk, x.X) {
 			g.failf(e, "index of %s", tx)
 		}
 		s := g.expr(x.X, p)
@@ -1941,7 +1970,7 @@ func (g *fnGen) expr(e ast.Expr, p *[]binding) string {
 		if x.Slice3 {
 			g.failf(e, "3-index slice")
 		}
-		if !isSliceType(g.typeOf(x.X)) {
+		if !isSliceType(g.typeOf(x.X)) && !g.t.arrayFieldSel(g.fi.pk, x.X) {
 			g.failf(e, "slice expression on %s", g.typeOf(x.X))
 		}
 		s := g.expr(x.X, p)
@@ -2209,6 +2238,16 @@ func (g *fnGen) binary(x *ast.BinaryExpr, p *[]binding) string {
 			if _, isPtr := types.Unalias(g.typeOf(other)).(*types.Pointer); isPtr && (x.Op == token.EQL || x.Op == token.NEQ) && g.t.inSubset(g.typeOf(other)) && g.t.coqType(x, g.typeOf(other)) == "Z" {
 				// an optional value as a handle (*time.Time under --timeint): nil is 0
 				t := "(" + paren(g.expr(other, p)) + " =? 0)"
+				if x.Op == token.NEQ {
+					return "(negb " + t + ")"
+				}
+				return t
+			}
+			if isSliceType(g.typeOf(other)) && (x.Op == token.EQL || x.Op == token.NEQ) {
+				// a slice is nil iff its descriptor is nil_slice (all four components 0); TRUSTED: no
+				// non-nil slice has that descriptor (true when array 0 of the heap is not an empty make result)
+				sv := paren(g.expr(other, p))
+				t := "(andb (Nat.eqb (s_arr " + sv + ") 0) (andb (s_off " + sv + " =? 0) (andb (s_len " + sv + " =? 0) (s_cap " + sv + " =? 0))))"
 				if x.Op == token.NEQ {
 					return "(negb " + t + ")"
 				}
